@@ -210,6 +210,7 @@ def std_kinds(names, cfg_fn=None, cfg_fn2=None, partial_fn=None):
       'ddict1': Kind('ddict1', 1, False, lambda v: collections.defaultdict(
           list, {'a': v[0]})),
       'tmp': Kind('tmp', 2, False, lambda v: N.Tmp(*v)),
+      'tvv': Kind('tvv', 1, False, lambda v: N.TagA.new(v[0]), True),
       'tmpprim': Kind('tmpprim', 1, False, lambda v: N.TmpPrim(v[0]),
                       leaf_only=True),
   }
